@@ -172,7 +172,14 @@ fn invalid_class(b: &[u8], e: &QErr) -> String {
     }
 }
 
-fn check_decode(b: &[u8], acc: &mut Acc) {
+#[derive(Clone, Copy, PartialEq, Eq)]
+enum Dense {
+    InBlock,
+    CoveredByBlocks,
+    No,
+}
+
+fn check_decode(b: &[u8], dense: Dense, acc: &mut Acc) {
     acc.evaluations += 1;
     let rep = || json!({"kind":"decode","input":hex(b)});
     let want = rq::decode_static_only(b);
@@ -215,8 +222,16 @@ fn check_decode(b: &[u8], acc: &mut Acc) {
     }
     acc.outcomes.insert(h.finish());
     if b.len() > 2 {
-        h.bytes(b);
-        acc.nontrivial.insert(h.finish());
+        match dense {
+            // part of a dense block enumeration: distinct by construction, counted
+            Dense::InBlock => acc.nontrivial_counted += 1,
+            // a structured input that the dense blocks also produce: already counted there
+            Dense::CoveredByBlocks => {}
+            Dense::No => {
+                h.bytes(b);
+                acc.nontrivial.insert(h.finish());
+            }
+        }
     }
 }
 
@@ -447,8 +462,21 @@ pub fn run(args: &Args) -> i32 {
         jobs.push(Job::Dec(c.to_vec()));
     }
     let prefixes: Vec<Vec<u8>> = vec![vec![0x00, 0x00], vec![0x00, 0x7f, 0x00], vec![0x01, 0x00], vec![0x00, 0x80], vec![0x00, 0x81]];
+    let maxlen_for = move |pi: usize| -> usize {
+        if pi == 0 {
+            if thorough {
+                4
+            } else {
+                3
+            }
+        } else if thorough {
+            3
+        } else {
+            2
+        }
+    };
     for (pi, p) in prefixes.iter().enumerate() {
-        let maxlen = if pi == 0 { if thorough { 4 } else { 3 } } else if thorough { 3 } else { 2 };
+        let maxlen = maxlen_for(pi);
         // lengths 0..maxlen-? : split the space by the first byte(s) so that jobs are even
         jobs.push(Job::Dec(vec![p.clone()]));
         for len in 1..=maxlen {
@@ -494,7 +522,9 @@ pub fn run(args: &Args) -> i32 {
         }
         Job::Dec(ins) => {
             for i in ins {
-                check_decode(i, acc);
+                // the dense blocks enumerate every string of <= maxlen bytes after each prefix
+                let covered = prefixes.iter().enumerate().any(|(pi, p)| i.starts_with(p) && i.len() - p.len() <= maxlen_for(pi));
+                check_decode(i, if covered { Dense::CoveredByBlocks } else { Dense::No }, acc);
             }
         }
         Job::DecBlock { prefix, lead, free } => {
@@ -507,7 +537,7 @@ pub fn run(args: &Args) -> i32 {
                 for k in 0..*free {
                     s[base + k] = (x >> (8 * (free - 1 - k))) as u8;
                 }
-                check_decode(&s, acc);
+                check_decode(&s, Dense::InBlock, acc);
             }
         }
     });
@@ -528,7 +558,7 @@ pub fn replay(r: &Value) -> i32 {
             let b = explore::unhex(r["input"].as_str().unwrap());
             println!("reference: {:?}", rq::decode_static_only(&b).map(|f| fields_str(&f)));
             println!("h3       : {:?}", h3_decode(&b));
-            check_decode(&b, &mut acc);
+            check_decode(&b, Dense::No, &mut acc);
         }
         Some("encode") => {
             let fields: Vec<Field> = r["fields"].as_array().unwrap().iter().map(|p| (explore::unhex(p[0].as_str().unwrap()), explore::unhex(p[1].as_str().unwrap()))).collect();
